@@ -233,6 +233,7 @@ async fn run_ref_scenario(sc: &Value, rng: &mut Rng, ref_is_server: bool) -> Val
     let cert_x = dtls::generate_certificate().expect("cert");
     let mut proxy = Proxy::bind(ops).await.expect("proxy");
     proxy.state.lock().unpack = true;
+    proxy.state.lock().repack = sc["repack"].as_bool().unwrap_or(false);
 
     // the reference endpoint: a connected UDP socket facing the proxy
     let rsock = tokio::net::UdpSocket::bind("127.0.0.1:0").await.expect("bind");
